@@ -38,7 +38,94 @@ func scaleCases(tier string) []scalekit.Case {
 			out = append(out, scalekit.Case{Shape: "revisions-with-last-round-augments", N: n, V: v})
 		}
 	}
+	// n loaded revisions of the TARGET module, each augmented by a module of its own that pins it by
+	// revision-date (variant bits: 1 a valid augment, 2 one that collides with a child the target has,
+	// 4 a second augmenting module that collides with what the first one grafts)
+	for n := 1; n <= 4; n++ {
+		for v := 1; v < 8; v++ {
+			out = append(out, scalekit.Case{Shape: "augments-into-pinned-revisions-of-the-target", N: n, V: v})
+		}
+	}
 	return out
+}
+
+// augments-into-pinned-revisions-of-the-target: whichever revision of the target a module pins, its
+// augment is applied to the tree of that revision and of no other, and a collision there is reported.
+func checkPinnedTargets(cs scalekit.Case) scalekit.Verdict {
+	var files []dump.File
+	date := func(r int) string { return fmt.Sprintf("202%d-01-01", r) }
+	for r := 0; r < cs.N; r++ {
+		files = append(files, dump.File{Name: fmt.Sprintf("a@%s.yang", date(r)), Text: fmt.Sprintf(`module a { namespace "urn:a"; prefix a; revision %s; container top { leaf own { type string; } leaf only%d { type string; } } }`, date(r), r)})
+	}
+	for r := 0; r < cs.N; r++ {
+		var sb strings.Builder
+		fmt.Fprintf(&sb, `module u%d { namespace "urn:u%d"; prefix u%d; import a { prefix a; revision-date %s; }`, r, r, r, date(r))
+		if cs.V&1 != 0 {
+			fmt.Fprintf(&sb, ` augment /a:top { leaf x%d { type string; } }`, r)
+		}
+		if cs.V&2 != 0 {
+			sb.WriteString(` augment /a:top { leaf own { type string; } }`)
+		}
+		if cs.V&4 != 0 {
+			fmt.Fprintf(&sb, ` augment /a:top { leaf shared%d { type string; } }`, r)
+		}
+		sb.WriteString(" }")
+		files = append(files, dump.File{Name: fmt.Sprintf("u%d.yang", r), Text: sb.String()})
+		if cs.V&4 != 0 {
+			files = append(files, dump.File{Name: fmt.Sprintf("w%d.yang", r), Text: fmt.Sprintf(`module w%d { namespace "urn:w%d"; prefix w%d; import a { prefix a; revision-date %s; } augment /a:top { leaf shared%d { type int8; } } }`, r, r, r, date(r), r)})
+		}
+	}
+	for _, rev := range []bool{false, true} {
+		ms, errs, lerr := scalekit.Load(files, rev)
+		if lerr != nil {
+			return scalekit.Bad("load-error", "loads", lerr.Error())
+		}
+		all := dump.Errors(errs)
+		if cs.V&6 == 0 && len(errs) > 0 {
+			return scalekit.Bad("spurious-errors", "no errors", all)
+		}
+		for r := 0; r < cs.N; r++ {
+			if cs.V&2 != 0 {
+				found := false
+				for _, e := range errs {
+					found = found || (strings.Contains(e.Error(), fmt.Sprintf("u%d.yang", r)) && strings.Contains(e.Error(), "own"))
+				}
+				if !found {
+					return scalekit.Bad("collision-in-a-pinned-revision-not-reported", fmt.Sprintf("an error about the augment of u%d.yang that adds a second leaf own to top of a@%s", r, date(r)), all)
+				}
+			}
+			if cs.V&4 != 0 {
+				found := false
+				for _, e := range errs {
+					found = found || ((strings.Contains(e.Error(), fmt.Sprintf("u%d.yang", r)) || strings.Contains(e.Error(), fmt.Sprintf("w%d.yang", r))) && strings.Contains(e.Error(), fmt.Sprintf("shared%d", r)))
+				}
+				if !found {
+					return scalekit.Bad("collision-of-two-augments-in-a-pinned-revision-not-reported", fmt.Sprintf("an error about leaf shared%d, which u%d.yang and w%d.yang both add to top of a@%s", r, r, r, date(r)), all)
+				}
+			}
+		}
+		if len(errs) > 0 {
+			continue
+		}
+		for r := 0; r < cs.N; r++ {
+			top := scalekit.Down(toEntry(ms.Modules["a@"+date(r)]), "top")
+			if top == nil {
+				return scalekit.Bad("target-vanished", "top of a@"+date(r), "nil")
+			}
+			for q := 0; q < cs.N; q++ {
+				if has := top.Dir[fmt.Sprintf("x%d", q)] != nil; has != (q == r) {
+					return scalekit.Bad("augment-applied-to-the-wrong-revision", fmt.Sprintf("leaf x%d in top of a@%s: %v", q, date(r), q == r), fmt.Sprint(has))
+				}
+			}
+			if x := top.Dir[fmt.Sprintf("x%d", r)]; x.Namespace() == nil || x.Namespace().Name != fmt.Sprintf("urn:u%d", r) {
+				return scalekit.Bad("grafted-node-namespace", fmt.Sprintf("urn:u%d", r), fmt.Sprint(x.Namespace()))
+			}
+			if len(top.Dir) != 3 {
+				return scalekit.Bad("target-children", fmt.Sprintf("own only%d x%d", r, r), fmt.Sprint(len(top.Dir)))
+			}
+		}
+	}
+	return scalekit.OK()
 }
 
 func checkManyAugments(cs scalekit.Case) scalekit.Verdict {
@@ -177,6 +264,9 @@ func checkRevisionAugments(cs scalekit.Case) scalekit.Verdict {
 func checkScale(cs scalekit.Case) scalekit.Verdict {
 	if cs.Shape == "revisions-with-last-round-augments" {
 		return checkRevisionAugments(cs)
+	}
+	if cs.Shape == "augments-into-pinned-revisions-of-the-target" {
+		return checkPinnedTargets(cs)
 	}
 	if cs.Shape == "many-augments" {
 		return checkManyAugments(cs)
